@@ -21,6 +21,9 @@ SPEC = os.path.join(vlib.SPECS, "crash")
 SIZE = {"quick": (3, 1, 1), "thorough": (7, 2, 4)}   # blocks, crash depth, scripts (seeds)
 
 
+REBUILD_BLOCKS = {"quick": 520, "thorough": 2100}
+
+
 def validate_traces(res, seed, tier, work, trace_files):
     """Trace validation in the narrow sense: the event logs of all real lives, concatenated, must be a behaviour of Crash.tla
     (TraceCrash.tla: one spec action per line, accepted iff every line is consumed).  A rejection names the line; the life
@@ -97,6 +100,15 @@ def run(res, prop, tier, seed, work, replay=None):
         with open(recs, "a") as fh:
             fh.write(open(part).read())
         traces.append(os.path.join(out, "trace.ndjson"))
+    # the restart that has to rebuild derived data (history, address index) on a long chain, stopped after any of its commits
+    rout = vlib.fresh_dir(os.path.join(work, "rebuild"))
+    env = dict(os.environ, VERIF_OUT=rout, VERIF_SEED=str(seed), VERIF_REBUILD_BLOCKS=str(REBUILD_BLOCKS[tier]))
+    p = vlib.run([vbin, "-test.run", "TestVerifRebuild$", "-test.count=1", "-test.timeout", "3000s"], env=env, timeout=3100, check=False)
+    rpart = os.path.join(rout, "rebuild.ndjson")
+    if p.returncode != 0 or not os.path.exists(rpart) or os.path.getsize(rpart) == 0:
+        raise Infra("rebuild recorder failed:\n" + "\n".join(l for l in (p.stdout or "").splitlines() if "INFO" not in l and "DEBUG" not in l and "WARN" not in l)[-2000:])
+    with open(recs, "a") as fh:
+        fh.write(open(rpart).read())
     st, mism = vlib.validate_records(SPEC, "CrashRecords", "CrashRecords.cfg", work, recs, chunk=5000, with_reason=True)
     for i, (r, parts) in enumerate(mism):
         sig = "crash:%s:after-%s" % (parts[1], "+".join(r["after"]) if r["after"] else "-")
@@ -123,6 +135,8 @@ def run(res, prop, tier, seed, work, replay=None):
         "mc": {"module": "Crash", "distinct": mc["distinct"], "generated": mc["generated"], "depth": mc["depth"], "cached": mc["cached"],
                "constants": "NBlocks=3 MaxCrashes=2", "liveness_checked": True},
         "samples": [{k: v for k, v in plans[len(plans) // 2].items() if k != "commits"}],
+        "rebuild_restarts": {"blocks": REBUILD_BLOCKS[tier], "images_restarted": sum(1 for r in all_recs if r["fn"] == "rebuild" and r["verify"]),
+                             "commits_of_the_rebuilding_start": {r["what"]: r["commits"] for r in all_recs if r["fn"] == "rebuild" and not r["verify"]}},
         "traces_validated_against_impl": nscripts, "checker_cmd": st["cmd"],
     })
     res.assumptions += ["bolt commits are atomic and durable (a crash inside a commit leaves the old or the new disk): torn page writes are not replayed",
